@@ -147,6 +147,8 @@ func (v *variablesExtractionVisitor) EnterDocument(operation, definition *ast.Do
 	v.operation, v.definition = operation, definition
 	v.extractedVariables = v.extractedVariables[:0]
 	v.extractedVariableTypeRefs = v.extractedVariableTypeRefs[:0]
+	// not truncated in place: the slice returned for the previous operation may still be in use
+	v.uploadsPath = nil
 }
 
 func (v *variablesExtractionVisitor) variableExists(variableValue []byte, inputValueDefinition int) (exists bool, name []byte, definition int) {
